@@ -155,6 +155,50 @@ func altModfile(tmp string) (string, error) {
 	return mf, nil
 }
 
+// buildC13 copies the repository to a scratch directory, rewrites the mutex
+// types of its env package to the scheduler-aware ones, adds the verifsync
+// package to the copy and builds cmd/c13sched against it.
+func buildC13(tmp string) (string, int, error) {
+	dst := filepath.Join(tmp, "c13repo")
+	if out, err := exec.Command("rsync", "-a", "--exclude", ".git", repo+"/", dst+"/").CombinedOutput(); err != nil {
+		return "", 0, fmt.Errorf("rsync: %v %s", err, out)
+	}
+	n, err := rewriteEnvMutexes(filepath.Join(dst, "env"))
+	if err != nil {
+		return "", 0, err
+	}
+	if n == 0 {
+		return "", 0, fmt.Errorf("no sync.RWMutex / sync.Mutex found in env/*.go: the controlled scheduler has no scheduling points to work with")
+	}
+	tpl, err := os.ReadFile(filepath.Join(harness, "c13", "verifsync.go.tpl"))
+	if err != nil {
+		return "", 0, err
+	}
+	os.MkdirAll(filepath.Join(dst, "verifsync"), 0o755)
+	if err := os.WriteFile(filepath.Join(dst, "verifsync", "verifsync.go"), tpl, 0o644); err != nil {
+		return "", 0, err
+	}
+	b, err := os.ReadFile(filepath.Join(harness, "go.mod"))
+	if err != nil {
+		return "", 0, err
+	}
+	mf := filepath.Join(tmp, "c13.mod")
+	os.WriteFile(mf, []byte(strings.Replace(string(b), "=> /repo", "=> "+dst, 1)), 0o644)
+	if sum, err := os.ReadFile(filepath.Join(harness, "go.sum")); err == nil {
+		os.WriteFile(filepath.Join(tmp, "c13.sum"), sum, 0o644)
+	}
+	out := filepath.Join(tmp, "c13sched")
+	cmd := exec.Command("go", "build", "-tags", "verif c13sched", "-modfile="+mf, "-o", out, "./cmd/c13sched")
+	cmd.Dir = harness
+	cmd.Env = goEnv()
+	var buf bytes.Buffer
+	cmd.Stdout, cmd.Stderr = &buf, &buf
+	if err := cmd.Run(); err != nil {
+		return "", 0, fmt.Errorf("%v\n%s", err, buf.String())
+	}
+	return out, n, nil
+}
+
 func buildAnko(tmp string) (string, error) {
 	out := filepath.Join(tmp, "anko")
 	cmd := exec.Command("go", "build", "-o", out, ".")
@@ -205,6 +249,7 @@ type runCtx struct {
 	tmp        string
 	plan       fw.Plan
 	bins       map[bool]string
+	special    map[string]string // phase name -> specially built worker
 	ankoBin    string
 	a          *agg
 	replayMode bool
@@ -256,6 +301,18 @@ func run(prop, tier string) int {
 				return 2
 			}
 			rc.ankoBin = b
+		}
+		if ph.Builder == "c13sched" {
+			b, n, err := buildC13(tmp)
+			if err != nil {
+				fmt.Printf("BUILD-FAILED property=%s (controlled-scheduler worker)\n%v\n", prop, err)
+				return 2
+			}
+			if rc.special == nil {
+				rc.special = map[string]string{}
+			}
+			rc.special[ph.Name] = b
+			rc.a.extra["mutex_fields_rewritten_in_env"] = n
 		}
 	}
 
@@ -357,6 +414,9 @@ func (rc *runCtx) runPhase(ph fw.Phase) {
 // (hi when the chunk completed).
 func (rc *runCtx) runChunk(ph fw.Phase, lo, hi int, prefix string) int {
 	bin := rc.bins[ph.Race]
+	if b, ok := rc.special[ph.Name]; ok {
+		bin = b
+	}
 	args := []string{"-prop", rc.prop, "-tier", rc.tier, "-seed", strconv.FormatInt(rc.seed, 10),
 		"-phase", ph.Name, "-lo", strconv.Itoa(lo), "-hi", strconv.Itoa(hi), "-out", prefix}
 	if rc.replayMode {
@@ -374,7 +434,7 @@ func (rc *runCtx) runChunk(ph fw.Phase, lo, hi int, prefix string) int {
 		env = append(env, "VERIF_ANKO_BIN="+rc.ankoBin)
 	}
 	if ph.Race {
-		env = append(env, "GORACE=halt_on_error=0 log_path="+prefix+".race")
+		env = append(env, "GORACE=halt_on_error=0 exitcode=0 log_path="+prefix+".race")
 	}
 	cmd.Env = env
 	cmd.SysProcAttr = &syscall.SysProcAttr{Setpgid: true}
@@ -597,13 +657,13 @@ func raceSignature(blk string) (string, bool) {
 			ln = strings.TrimSpace(ln)
 			if strings.HasPrefix(ln, "github.com/mattn/anko/") && top == "" {
 				fn := ln
-				if j := strings.Index(fn, "("); j > 0 {
+				if j := strings.LastIndex(fn, "("); j > 0 {
 					fn = fn[:j]
 				}
 				top = strings.TrimPrefix(fn, "github.com/mattn/anko/")
 			}
 			if firstFn == "" && strings.Contains(ln, "(") && !strings.HasPrefix(ln, "/") && !strings.Contains(ln, " by ") {
-				firstFn = ln[:strings.Index(ln, "(")]
+				firstFn = ln[:strings.LastIndex(ln, "(")]
 			}
 		}
 		if top != "" {
